@@ -44,6 +44,12 @@ def run(ctx):
     else:
         rc, out = sh([explorer, ops], env=ctx.env, timeout=3000)
     ctx.log(out.strip().split("\n")[-1] if out.strip() else "explorer silent")
+    if rc == 3 and "HANG " in out:
+        # the watchdog of the explorer: one case did not finish in the real code
+        hang = [l for l in out.split("\n") if l.startswith("HANG ")][-1][5:]
+        ctx.violation("judge", "C17 termination: Highlighter::highlight / HtmlRenderer::render did not finish within the per-case time limit on this input",
+                      {"case": "hang", "spec": hang}, fingerprint={"kind": hang[:1], "clause": "termination"})
+        return ctx.finish()
     if rc != 0:
         ctx.oblige("run:explorer", False, out[-800:])
         return ctx.finish()
